@@ -153,6 +153,10 @@ impl MemoryArea {
         }
     }
 
+    pub(crate) fn verif_extent(&self) -> (u64, u64) {
+        (self.start, self.length)
+    }
+
     pub(crate) fn verif_with<F: FnMut(u64, u32, &[u8])>(&self, f: &mut F) {
         f(self.start, self.access, &self.data)
     }
